@@ -161,7 +161,8 @@ Section Sheets.
         end
     end.
 
-  (* CSS(url=a): fetch, then preprocess with base = the URL itself.  Recursion on the world's tail. *)
+  (* CSS(url=a): fetch, then preprocess with base = the URL itself (k and a spell the same string).
+     Recursion on the world's tail. *)
   Fixpoint load_sheet (w : world) (link : bool) (a : aurl) : list ev * list cssimg :=
     match w with
     | [] => ([Fetch ChSheet (fetched_string a); Log LError (fetched_string a)], [])
@@ -173,7 +174,7 @@ Section Sheets.
           | None =>
               match c with
               | CSheet items =>
-                  let '(e, i) := run_items (load_sheet w' false) (base_of a) false items in
+                  let '(e, i) := run_items (load_sheet w' false) (base_of k) false items in
                   (Fetch ChSheet u :: e, i)
               | _ => (Fetch ChSheet u :: sheet_fail_log link MWrongType u, [])
               end
